@@ -255,10 +255,40 @@ def refute_bounded(o, timeout_ms, K=132):
         s.add(*inst)
     ng = Not(o.goal)
     s.add(ng)
-    r = s.check()
+    r = guarded_check(s, timeout_ms)
     if r == z3.sat:
         return model_dict(s.model())
     return None
+
+
+import threading
+
+
+def guarded_check(s, timeout_ms):
+    """z3 sometimes ignores its own timeout on quantified array queries: a watchdog interrupts the
+    context a little after the deadline; an interrupted query counts as unknown"""
+    done = threading.Event()
+    ctx = s.ctx              # the long-lived main context: the thread must not keep `s` alive (z3
+    wait_s = timeout_ms / 1000.0 + 1.5      # objects must not be released from another thread)
+
+    def watchdog(done=done, ctx=ctx, wait_s=wait_s):
+        if not done.wait(wait_s):
+            try:
+                ctx.interrupt()
+            except Exception:
+                pass
+    t = threading.Thread(target=watchdog, daemon=True)
+    t.start()
+    try:
+        return s.check()
+    except z3.Z3Exception:
+        return z3.unknown
+    finally:
+        done.set()
+
+
+_SLOW = {'n': 0}
+SLOW_BUDGET = int(os.environ.get('PYVC_SLOW_BUDGET', '6'))
 
 
 def discharge(o, timeout_ms=QUICK_TIMEOUT_MS, second_opinion=False):
@@ -269,13 +299,28 @@ def discharge(o, timeout_ms=QUICK_TIMEOUT_MS, second_opinion=False):
         o.verdict, o.backend, o.ms = 'proved', 'simplifier', 0.0
         return o
     s = z3.Solver()
-    s.set('timeout', min(timeout_ms, 2500))
+    exhausted = _SLOW['n'] > SLOW_BUDGET
+    s.set('timeout', 400 if exhausted else min(timeout_ms, 2500))
     s.add(*o.pc)
     s.add(*literal_facts())
     s.add(Not(g))
-    r = s.check()
+    first_timeout = 400 if exhausted else min(timeout_ms, 2500)
+    r = guarded_check(s, first_timeout)
     o.backend = 'z3-%s' % z3.get_version_string()
     if r == z3.unknown:
+        _SLOW['n'] += 1
+        if _SLOW['n'] > SLOW_BUDGET:
+            # many hard queries in one function (typically a changed function that no longer fits
+            # its invariants): keep the run bounded - one short refutation attempt, then undecided
+            m = refute_bounded(o, 1500) if _SLOW['n'] <= 4 * SLOW_BUDGET else None
+            if m is not None:
+                o.verdict, o.model = 'refuted', m
+                o.backend += ' (counter-model under bounded instantiation of quantified hypotheses)'
+            else:
+                o.verdict = 'unknown'
+                o.info = dict(o.info or {}, reason='slow-query budget of this function exhausted')
+            o.ms = (time.time() - t0) * 1000
+            return o
         # a counter-model once the quantified hypotheses are instantiated?  (fast, tried first)
         m = refute_bounded(o, min(timeout_ms, 8000))
         if m is not None:
@@ -284,7 +329,7 @@ def discharge(o, timeout_ms=QUICK_TIMEOUT_MS, second_opinion=False):
             o.ms = (time.time() - t0) * 1000
             return o
         s.set('timeout', timeout_ms)
-        r = s.check()
+        r = guarded_check(s, timeout_ms)
     if r == z3.unsat:
         o.verdict = 'proved'
     elif r == z3.sat:
@@ -355,6 +400,7 @@ def verify_and_discharge(qual, variant_index=None, timeout_ms=QUICK_TIMEOUT_MS, 
     """worker entry point: returns plain data (no z3 objects)"""
     c = REG.contracts[qual]
     t0 = time.time()
+    _SLOW['n'] = 0
     out = dict(qual=qual, obligations=[], infos=[], error=None)
     try:
         variants = c.variants()
